@@ -104,7 +104,10 @@ def h_session(ctx, mods, shape):
     keys = None
     if shape.get('auth'):
         from .c05 import make_auth
-        auth, keys = make_auth(ctx, nkeys=2, accept=('key', 1), maxdata=maxdata)
+        if shape.get('auth') == 'pubkey_text':
+            auth, keys = make_auth(ctx, nkeys=1, accept=('pubkey',), maxdata=maxdata, str_pubkey='nonascii')
+        else:
+            auth, keys = make_auth(ctx, nkeys=2, accept=('key', 1), maxdata=maxdata)
     st = Std(ctx, maxdata=maxdata, auth=auth)
     if shape.get('sym_version'):
         st.dev.version = ctx.int('device_version', 0, 2 ** 32 - 1)
@@ -158,6 +161,7 @@ def shapes(tier, seed):
         for auth in (False, True):
             out.append({'h': 'session', 'impl': impl, 'maxdata': 4096, 'fsize': 5000, 'auth': auth})
         out.append({'h': 'session', 'impl': impl, 'maxdata': 4096, 'fsize': 5000, 'auth': False, 'sym_version': True})
+        out.append({'h': 'session', 'impl': impl, 'maxdata': 4096, 'fsize': 100, 'auth': 'pubkey_text'})
         if not q:
             out.append({'h': 'session', 'impl': impl, 'maxdata': 65536, 'fsize': 150000, 'auth': False})
             out.append({'h': 'session', 'impl': impl, 'maxdata': 1 << 20, 'fsize': 150000, 'auth': False})
